@@ -1,6 +1,7 @@
 package main
 
 import (
+	"sync"
 	"fmt"
 	"go/ast"
 	"go/token"
@@ -138,6 +139,14 @@ func LoadProgram(repo, scratch string, patterns []string) (*Program, error) {
 func (p *Program) ContractFor(fullName, callerPkg string) *FuncContract {
 	if pc := p.Contracts[callerPkg]; pc != nil {
 		if c, ok := pc.Funcs[fullName]; ok {
+			// a trusted contract a caller's package writes on a function that is itself under contract in its
+			// own package adds to that contract (extra preconditions for these callers, extra trusted
+			// postconditions in this package's ghost vocabulary); it does not replace it
+			if c.Trusted {
+				if own := p.ownContract(fullName, callerPkg); own != nil {
+					return p.mergedContract(c, own)
+				}
+			}
 			return c
 		}
 	}
@@ -165,4 +174,38 @@ func (p *Program) IsPure(fullName string) bool {
 		}
 	}
 	return false
+}
+
+// ownContract: the (non-trusted) contract of fullName written in a package other than callerPkg.
+func (p *Program) ownContract(fullName, callerPkg string) *FuncContract {
+	var paths []string
+	for path := range p.Contracts {
+		paths = append(paths, path)
+	}
+	sort.Strings(paths)
+	for _, path := range paths {
+		if path == callerPkg {
+			continue
+		}
+		if c, ok := p.Contracts[path].Funcs[fullName]; ok && !c.Trusted {
+			return c
+		}
+	}
+	return nil
+}
+
+var mergedMu sync.Mutex
+var mergedContracts = map[[2]*FuncContract]*FuncContract{}
+
+func (p *Program) mergedContract(extra, own *FuncContract) *FuncContract {
+	mergedMu.Lock()
+	defer mergedMu.Unlock()
+	k := [2]*FuncContract{extra, own}
+	if m, ok := mergedContracts[k]; ok {
+		return m
+	}
+	m := *own
+	m.MergedFrom = extra
+	mergedContracts[k] = &m
+	return &m
 }
